@@ -149,6 +149,8 @@ struct Scenario {
     tasks: Vec<Vec<Op>>,
     /// which thread drops which of the last handles during tear-down
     teardown: Vec<Vec<usize>>,
+    /// every node is created on a thread of its own (which ends before the scenario starts)
+    born_elsewhere: bool,
 }
 
 fn generate(mode: &str, seed: u64) -> Scenario {
@@ -206,7 +208,8 @@ fn generate(mode: &str, seed: u64) -> Scenario {
             teardown[t].push(u);
         }
     }
-    Scenario { directed, n, prios, initial, tasks, teardown }
+    let born_elsewhere = r.below(4) == 0;
+    Scenario { directed, n, prios, initial, tasks, teardown, born_elsewhere }
 }
 
 // ---------------------------------------------------------------------------
@@ -296,7 +299,16 @@ macro_rules! flavour {
             }
 
             pub fn run(sc: &Scenario) {
-                let nodes: Vec<N> = (0..sc.n).map(|k| gdsl::$m::Node::new(k, NV::new(k, sc.prios[k]))).collect();
+                let nodes: Vec<N> = (0..sc.n)
+                    .map(|k| {
+                        let v = NV::new(k, sc.prios[k]);
+                        if sc.born_elsewhere {
+                            std::thread::spawn(move || gdsl::$m::Node::new(k, v)).join().unwrap()
+                        } else {
+                            gdsl::$m::Node::new(k, v)
+                        }
+                    })
+                    .collect();
                 for (u, v, e) in &sc.initial {
                     nodes[*u].connect(&nodes[*v], EV::new(*e));
                 }
@@ -444,8 +456,9 @@ fn op_text(op: &Op) -> String {
 fn to_text(sc: &Scenario) -> String {
     let join = |v: Vec<String>, sep: &str| v.join(sep);
     format!(
-        "dir={};n={};prios={};init={};tasks={};down={}",
+        "dir={};born={};n={};prios={};init={};tasks={};down={}",
         sc.directed as u8,
+        sc.born_elsewhere as u8,
         sc.n,
         join(sc.prios.iter().map(|p| p.to_string()).collect(), "."),
         join(sc.initial.iter().map(|(u, v, e)| format!("{u}.{v}.{e}")).collect(), ","),
@@ -503,7 +516,7 @@ fn from_text(t: &str) -> Option<Scenario> {
             return None;
         }
     }
-    Some(Scenario { directed: f.get("dir")? == "1", n, prios, initial, tasks, teardown })
+    Some(Scenario { directed: f.get("dir")? == "1", n, prios, initial, tasks, teardown, born_elsewhere: f.get("born").map(|b| b == "1").unwrap_or(false) })
 }
 
 fn main() {
